@@ -1,6 +1,9 @@
 use ahash::RandomState;
 use crossbeam_skiplist::SkipMap;
 use crossbeam_utils::CachePadded;
+#[cfg(feoxdb_verif)]
+use crate::verif::locks::RwLock;
+#[cfg(not(feoxdb_verif))]
 use parking_lot::RwLock;
 use scc::HashMap;
 use std::sync::atomic::{AtomicU64, AtomicUsize, Ordering};
